@@ -206,10 +206,7 @@ Proof.
     + rewrite (tok_prefix_ext_none _ _ _ x P) by discriminate. reflexivity.
 Qed.
 
-Section WithIp.
-Variable ipf : bytes -> option ipaddr.
-
-Lemma v1_parse_ext b x : v1_parse ipf b <> More -> v1_parse ipf (b ++ x) = v1_parse ipf b.
+Lemma v1_parse_ext ipf b x : v1_parse ipf b <> More -> v1_parse ipf (b ++ x) = v1_parse ipf b.
 Proof.
   unfold v1_parse. intros H.
   destruct (v1_isolate b) as [i n| |] eqn:E; try congruence;
@@ -271,7 +268,7 @@ Lemma add_size_more k o : add_size k o <> More <-> o <> More.
 Proof. destruct o; cbn [add_size]; split; congruence. Qed.
 
 (* the first sentence of the property: whatever is not "need more" is final *)
-Theorem pp_parse_ext b x : pp_parse ipf b <> More -> pp_parse ipf (b ++ x) = pp_parse ipf b.
+Theorem pp_parse_ext ipf b x : pp_parse ipf b <> More -> pp_parse ipf (b ++ x) = pp_parse ipf b.
 Proof.
   unfold pp_parse, tok_skip.
   destruct (starts_with b pp_magic2) eqn:S2.
@@ -282,7 +279,7 @@ Proof.
     + rewrite (starts_with_hd_conflict _ _ _ magic_hd_differ (starts_with_app _ _ x S1)).
       rewrite (starts_with_app _ _ x S1). rewrite magic1_nonempty. cbn [negb].
       rewrite dropN_app_le by (apply starts_with_len; exact S1).
-      intros H. apply add_size_more in H. rewrite (v1_parse_ext _ x H). reflexivity.
+      intros H. apply add_size_more in H. rewrite (v1_parse_ext ipf _ x H). reflexivity.
     + destruct (lenN pp_magic2 <=? lenN b) eqn:L; [|congruence]. intros _.
       pose proof magic_len_le.
       rewrite (starts_with_false_ext _ _ x S2) by lia.
@@ -290,13 +287,12 @@ Proof.
       rewrite lenN_app. destruct (lenN pp_magic2 <=? lenN b + lenN x) eqn:L2; [reflexivity|lia].
 Qed.
 
-Corollary pp_ok_stable b x h n : pp_parse ipf b = Ok h n -> pp_parse ipf (b ++ x) = Ok h n.
+Corollary pp_ok_stable ipf b x h n : pp_parse ipf b = Ok h n -> pp_parse ipf (b ++ x) = Ok h n.
 Proof. intros H. rewrite pp_parse_ext; [exact H|rewrite H; discriminate]. Qed.
 
-Corollary pp_reject_stable b x e : pp_parse ipf b = Reject e -> pp_parse ipf (b ++ x) = Reject e.
+Corollary pp_reject_stable ipf b x e : pp_parse ipf b = Reject e -> pp_parse ipf (b ++ x) = Reject e.
 Proof. intros H. rewrite pp_parse_ext; [exact H|rewrite H; discriminate]. Qed.
 
-End WithIp.
 
 (* ================================================================== *)
 (* decimal ports through Tokenizer::int64(port, 10, false)            *)
@@ -618,4 +614,552 @@ Proof.
   cbn [add_size]. unfold header_set_addrs, header_new. cbn [h_v2 h_cmd h_ignore h_tlvs].
   f_equal. rewrite L1. repeat (rewrite lenN_app || cbn [lenN]).
   change (lenN pp_magic1) with 5. change (lenN s_TCP) with 3. lia.
+Qed.
+
+(* ================================================================== *)
+(* v1 UNKNOWN, and the v1 rejection list                               *)
+Theorem v1_unknown_roundtrip ipf junk rest :
+  forallb nonCR junk = true -> lenN (enc_v1_unknown junk) <= v1_maxHeaderLength ->
+  pp_parse ipf (enc_v1_unknown junk ++ rest) =
+  Ok {| h_v2 := false; h_cmd := pp_cmdProxy; h_ignore := true;
+        h_src := addr_empty; h_sport := 0; h_dst := addr_empty; h_dport := 0; h_tlvs := [] |}
+     (lenN (enc_v1_unknown junk)).
+Proof.
+  intros Hj Hlen. unfold enc_v1_unknown in *. change v1_maxHeaderLength with 107 in Hlen.
+  repeat (rewrite lenN_app in Hlen || cbn [lenN] in Hlen). change (lenN pp_magic1) with 5 in Hlen. change (lenN s_UNKNOWN) with 7 in Hlen.
+  replace ((pp_magic1 ++ [32] ++ s_UNKNOWN ++ junk ++ [13; 10]) ++ rest)
+    with (pp_magic1 ++ ((32 :: s_UNKNOWN ++ junk) ++ 13 :: 10 :: rest))
+    by (repeat (rewrite <- app_assoc; cbn [app]); reflexivity).
+  rewrite pp_parse_v1. unfold v1_parse. rewrite v1_isolate_ok.
+  2:{ discriminate. }
+  2:{ cbn [forallb]. replace (nonCR 32) with true by (vm_compute; reflexivity). cbn [andb].
+      apply forallb_app'; [vm_compute; reflexivity|exact Hj]. }
+  2:{ change v1_maxInteriorLength with 100. repeat (rewrite lenN_app || cbn [lenN]). change (lenN s_UNKNOWN) with 7. lia. }
+  unfold v1_interior. cbn [tok_skipChar N.eqb Pos.eqb].
+  assert (T : tok_skip s_TCP (s_UNKNOWN ++ junk) = (false, s_UNKNOWN ++ junk)) by reflexivity.
+  rewrite T. rewrite tok_skip_self. change (negb (lenN s_UNKNOWN =? 0)) with true. cbv iota.
+  cbn [add_size]. f_equal.
+  repeat (rewrite lenN_app || cbn [lenN]). change (lenN pp_magic1) with 5. change (lenN s_UNKNOWN) with 7. lia.
+Qed.
+
+(* oversized v1 line: 101 bytes without CR after the magic *)
+Theorem v1_oversized_rejected ipf body rest :
+  forallb nonCR body = true -> v1_maxInteriorLength < lenN body ->
+  pp_parse ipf (pp_magic1 ++ body ++ rest) = Reject E1_malformed_header.
+Proof.
+  intros Hb Hlen. rewrite pp_parse_v1. unfold v1_parse, v1_isolate.
+  pose proof (takeN_dropN v1_maxInteriorLength body) as Hsplit.
+  pose proof (lenN_takeN v1_maxInteriorLength body) as Ht.
+  pose proof (lenN_dropN v1_maxInteriorLength body) as Hd.
+  set (t := takeN v1_maxInteriorLength body) in *. set (r := dropN v1_maxInteriorLength body) in *.
+  assert (Hall : forallb nonCR t = true /\ forallb nonCR r = true).
+  { rewrite <- Hsplit, forallb_app in Hb. apply andb_true_iff in Hb. exact Hb. }
+  destruct Hall as [Hat Har].
+  rewrite <- Hsplit, <- app_assoc.
+  destruct r as [|c r']; [cbn [lenN] in Hd; lia|].
+  rewrite prefix_spec_intro; [| | exact Hat | lia | left; lia].
+  2:{ intros E. rewrite E in Ht. cbn [lenN] in Ht. change v1_maxInteriorLength with 100 in *. lia. }
+  cbn [app tok_skipChar]. cbn [forallb] in Har. apply andb_true_iff in Har as [Hc _].
+  rewrite nonCR_spec in Hc. destruct (c =? 13); [discriminate|]. reflexivity.
+Qed.
+
+(* a complete "PROXY TCP..." line: the outcome is that of One::ParseAddresses on what follows "TCP" *)
+Lemma v1_tcp_line ipf t rest :
+  forallb nonCR t = true -> lenN t <= 96 ->
+  pp_parse ipf (pp_magic1 ++ (32 :: s_TCP ++ t) ++ 13 :: 10 :: rest) =
+  match v1_addresses ipf t with
+  | inl e => Reject e
+  | inr (s, sp, d, dp) =>
+      Ok (header_set_addrs (header_new false pp_cmdProxy) s sp d dp) (lenN pp_magic1 + (lenN (32 :: s_TCP ++ t) + 1 + 1))
+  end.
+Proof.
+  intros Ht Hlen. rewrite pp_parse_v1. unfold v1_parse. rewrite v1_isolate_ok.
+  2:{ discriminate. }
+  2:{ cbn [forallb]. replace (nonCR 32) with true by (vm_compute; reflexivity). cbn [andb].
+      apply forallb_app'; [vm_compute; reflexivity|exact Ht]. }
+  2:{ change v1_maxInteriorLength with 100. repeat (rewrite lenN_app || cbn [lenN]). change (lenN s_TCP) with 3. lia. }
+  unfold v1_interior. cbn [tok_skipChar N.eqb Pos.eqb]. rewrite tok_skip_self.
+  change (negb (lenN s_TCP =? 0)) with true. cbv iota.
+  destruct (v1_addresses ipf t) as [e|[[[s sp] d] dp]]; reflexivity.
+Qed.
+
+(* One::ParseAddresses up to the family check *)
+Lemma v1_addresses_upto_family ipf fam st dt sa da more :
+  famChars fam = true -> st <> [] -> dt <> [] -> forallb ipChars st = true -> forallb ipChars dt = true ->
+  ipf st = Some sa -> ipf dt = Some da -> lenN st <= npos -> lenN dt <= npos ->
+  v1_addresses ipf (fam :: 32 :: st ++ 32 :: dt ++ 32 :: more) =
+  if negb (list_eqb (address_family sa da) [fam]) then inl E1_family_mismatch else
+  match v1_extract_port true more with
+  | inl e => inl e
+  | inr (sp, r5) => match v1_extract_port false r5 with inl e => inl e | inr (dp, _) => inr (sa, sp, da, dp) end
+  end.
+Proof.
+  intros Hfc Hst Hdt Hsc Hdc Hsa Hda L1 L2. unfold v1_addresses.
+  change (fam :: 32 :: st ++ 32 :: dt ++ 32 :: more) with ([fam] ++ 32 :: st ++ 32 :: dt ++ 32 :: more).
+  rewrite prefix_spec_intro; [|discriminate|cbn [forallb]; rewrite Hfc; reflexivity|cbn [lenN]; lia|left; reflexivity].
+  cbn [tok_skipChar N.eqb Pos.eqb].
+  rewrite (extract_ip_ok ipf st sa _ Hst Hsc Hsa L1).
+  rewrite (extract_ip_ok ipf dt da _ Hdt Hdc Hda L2). reflexivity.
+Qed.
+
+Theorem v1_family_mismatch_rejected ipf fam st dt sa da more rest :
+  st <> [] -> dt <> [] -> forallb ipChars st = true -> forallb ipChars dt = true ->
+  ipf st = Some sa -> ipf dt = Some da ->
+  ((fam = 52 /\ (is_ipv4 sa = false \/ is_ipv4 da = false)) \/ (fam = 54 /\ (is_ipv4 sa = true \/ is_ipv4 da = true))) ->
+  forallb nonCR more = true -> lenN (fam :: 32 :: st ++ 32 :: dt ++ 32 :: more) <= 96 ->
+  pp_parse ipf (pp_magic1 ++ (32 :: s_TCP ++ fam :: 32 :: st ++ 32 :: dt ++ 32 :: more) ++ 13 :: 10 :: rest)
+  = Reject E1_family_mismatch.
+Proof.
+  intros Hst Hdt Hsc Hdc Hsa Hda Hfam Hm Hlen.
+  assert (Hfc : famChars fam = true) by (destruct Hfam as [(-> & _)|(-> & _)]; reflexivity).
+  assert (Hfn : nonCR fam = true) by (destruct Hfam as [(-> & _)|(-> & _)]; vm_compute; reflexivity).
+  pose proof Hlen as Hlen'. repeat (rewrite lenN_app in Hlen' || cbn [lenN] in Hlen').
+  rewrite v1_tcp_line; [| |exact Hlen].
+  2:{ cbn [forallb]. rewrite Hfn. replace (nonCR 32) with true by (vm_compute; reflexivity). cbn [andb].
+      apply forallb_app'; [apply forallb_ip_nonCR; exact Hsc|]. cbn [forallb].
+      replace (nonCR 32) with true by (vm_compute; reflexivity). cbn [andb].
+      apply forallb_app'; [apply forallb_ip_nonCR; exact Hdc|]. cbn [forallb].
+      replace (nonCR 32) with true by (vm_compute; reflexivity). exact Hm. }
+  rewrite (v1_addresses_upto_family ipf fam st dt sa da more Hfc Hst Hdt Hsc Hdc Hsa Hda) by (unfold npos; lia).
+  assert (E : list_eqb (address_family sa da) [fam] = false).
+  { unfold address_family.
+    destruct Hfam as [(-> & [H|H])|(-> & [H|H])]; rewrite H; destruct (is_ipv4 sa), (is_ipv4 da); reflexivity. }
+  rewrite E. reflexivity.
+Qed.
+
+(* a source or destination port above 65535 (any number of digits, leading zeros included) *)
+Theorem v1_big_src_port_rejected ipf fam st dt sa da sps more rest :
+  st <> [] -> dt <> [] -> forallb ipChars st = true -> forallb ipChars dt = true ->
+  ipf st = Some sa -> ipf dt = Some da -> famChars fam = true ->
+  sps <> [] -> Forall is_dec sps -> 65535 < dec_value sps -> stops10 more ->
+  forallb nonCR more = true -> lenN (fam :: 32 :: st ++ 32 :: dt ++ 32 :: sps ++ more) <= 96 ->
+  exists e, pp_parse ipf (pp_magic1 ++ (32 :: s_TCP ++ fam :: 32 :: st ++ 32 :: dt ++ 32 :: sps ++ more) ++ 13 :: 10 :: rest)
+  = Reject e.
+Proof.
+  intros Hst Hdt Hsc Hdc Hsa Hda Hfc Hs1 Hs2 Hs3 Hstop Hm Hlen.
+  assert (Hfn : nonCR fam = true).
+  { unfold famChars in Hfc. rewrite nonCR_spec. destruct (fam =? 13) eqn:E; [|reflexivity].
+    apply N.eqb_eq in E. subst. discriminate. }
+  pose proof Hlen as Hlen'. repeat (rewrite lenN_app in Hlen' || cbn [lenN] in Hlen').
+  rewrite v1_tcp_line; [| |exact Hlen].
+  2:{ cbn [forallb]. rewrite Hfn. replace (nonCR 32) with true by (vm_compute; reflexivity). cbn [andb].
+      apply forallb_app'; [apply forallb_ip_nonCR; exact Hsc|]. cbn [forallb].
+      replace (nonCR 32) with true by (vm_compute; reflexivity). cbn [andb].
+      apply forallb_app'; [apply forallb_ip_nonCR; exact Hdc|]. cbn [forallb].
+      replace (nonCR 32) with true by (vm_compute; reflexivity). cbn [andb].
+      apply forallb_app'; [apply forallb_Forall_dec; exact Hs2|exact Hm]. }
+  rewrite (v1_addresses_upto_family ipf fam st dt sa da (sps ++ more) Hfc Hst Hdt Hsc Hdc Hsa Hda) by (unfold npos; lia).
+  destruct (negb _); [eexists; reflexivity|].
+  destruct (extract_port_big true sps more Hs1 Hs2 Hs3 Hstop) as [e He]; [rewrite lenN_app; unfold npos; lia|].
+  rewrite He. eexists; reflexivity.
+Qed.
+
+Theorem v1_nonnumeric_src_port_rejected ipf fam st dt sa da c more rest :
+  st <> [] -> dt <> [] -> forallb ipChars st = true -> forallb ipChars dt = true ->
+  ipf st = Some sa -> ipf dt = Some da -> famChars fam = true ->
+  digit_of 10 c = None ->
+  forallb nonCR (c :: more) = true -> lenN (fam :: 32 :: st ++ 32 :: dt ++ 32 :: c :: more) <= 96 ->
+  exists e, pp_parse ipf (pp_magic1 ++ (32 :: s_TCP ++ fam :: 32 :: st ++ 32 :: dt ++ 32 :: c :: more) ++ 13 :: 10 :: rest)
+  = Reject e.
+Proof.
+  intros Hst Hdt Hsc Hdc Hsa Hda Hfc Hc Hm Hlen.
+  assert (Hfn : nonCR fam = true).
+  { unfold famChars in Hfc. rewrite nonCR_spec. destruct (fam =? 13) eqn:E; [|reflexivity].
+    apply N.eqb_eq in E. subst. discriminate. }
+  pose proof Hlen as Hlen'. repeat (rewrite lenN_app in Hlen' || cbn [lenN] in Hlen').
+  rewrite v1_tcp_line; [| |exact Hlen].
+  2:{ cbn [forallb]. rewrite Hfn. replace (nonCR 32) with true by (vm_compute; reflexivity). cbn [andb].
+      apply forallb_app'; [apply forallb_ip_nonCR; exact Hsc|]. cbn [forallb].
+      replace (nonCR 32) with true by (vm_compute; reflexivity). cbn [andb].
+      apply forallb_app'; [apply forallb_ip_nonCR; exact Hdc|]. cbn [forallb].
+      replace (nonCR 32) with true by (vm_compute; reflexivity). exact Hm. }
+  rewrite (v1_addresses_upto_family ipf fam st dt sa da (c :: more) Hfc Hst Hdt Hsc Hdc Hsa Hda) by (unfold npos; lia).
+  destruct (negb _); [eexists; reflexivity|].
+  rewrite (extract_port_nondigit true c more Hc). eexists; reflexivity.
+Qed.
+
+Theorem v1_big_dst_port_rejected ipf fam st dt sa da sps dps more rest :
+  st <> [] -> dt <> [] -> forallb ipChars st = true -> forallb ipChars dt = true ->
+  ipf st = Some sa -> ipf dt = Some da -> famChars fam = true ->
+  sps <> [] -> Forall is_dec sps -> dec_value sps <= 65535 ->
+  dps <> [] -> Forall is_dec dps -> 65535 < dec_value dps -> stops10 more ->
+  forallb nonCR more = true -> lenN (fam :: 32 :: st ++ 32 :: dt ++ 32 :: sps ++ 32 :: dps ++ more) <= 96 ->
+  exists e, pp_parse ipf (pp_magic1 ++ (32 :: s_TCP ++ fam :: 32 :: st ++ 32 :: dt ++ 32 :: sps ++ 32 :: dps ++ more) ++ 13 :: 10 :: rest)
+  = Reject e.
+Proof.
+  intros Hst Hdt Hsc Hdc Hsa Hda Hfc Hs1 Hs2 Hs3 Hd1 Hd2 Hd3 Hstop Hm Hlen.
+  assert (Hfn : nonCR fam = true).
+  { unfold famChars in Hfc. rewrite nonCR_spec. destruct (fam =? 13) eqn:E; [|reflexivity].
+    apply N.eqb_eq in E. subst. discriminate. }
+  pose proof Hlen as Hlen'. repeat (rewrite lenN_app in Hlen' || cbn [lenN] in Hlen').
+  rewrite v1_tcp_line; [| |exact Hlen].
+  2:{ cbn [forallb]. rewrite Hfn. replace (nonCR 32) with true by (vm_compute; reflexivity). cbn [andb].
+      apply forallb_app'; [apply forallb_ip_nonCR; exact Hsc|]. cbn [forallb].
+      replace (nonCR 32) with true by (vm_compute; reflexivity). cbn [andb].
+      apply forallb_app'; [apply forallb_ip_nonCR; exact Hdc|]. cbn [forallb].
+      replace (nonCR 32) with true by (vm_compute; reflexivity). cbn [andb].
+      apply forallb_app'; [apply forallb_Forall_dec; exact Hs2|]. cbn [forallb].
+      replace (nonCR 32) with true by (vm_compute; reflexivity). cbn [andb].
+      apply forallb_app'; [apply forallb_Forall_dec; exact Hd2|exact Hm]. }
+  rewrite (v1_addresses_upto_family ipf fam st dt sa da (sps ++ 32 :: dps ++ more) Hfc Hst Hdt Hsc Hdc Hsa Hda) by (unfold npos; lia).
+  destruct (negb _); [eexists; reflexivity|].
+  rewrite extract_port_sp; try assumption; [|repeat (rewrite lenN_app || cbn [lenN]); unfold npos; lia].
+  destruct (extract_port_big false dps more Hd1 Hd2 Hd3 Hstop) as [e He]; [rewrite lenN_app; unfold npos; lia|].
+  rewrite He. eexists; reflexivity.
+Qed.
+
+(* ================================================================== *)
+(* v2: BinaryTokenizer on encoded fields                               *)
+Lemma bt_area_app_exact em a b : bt_area em (lenN a) (a ++ b) = BOk a b.
+Proof.
+  unfold bt_area. rewrite lenN_app. destruct (lenN a + lenN b <? lenN a) eqn:E; [lia|].
+  rewrite takeN_app_exact, dropN_app_exact. reflexivity.
+Qed.
+
+Lemma bt_uint8_cons em c l : bt_uintN em 1 (c :: l) = BOk c l.
+Proof. change (c :: l) with ([c] ++ l). unfold bt_uintN. change 1 with (lenN [c]) at 1. rewrite bt_area_app_exact. cbn. reflexivity. Qed.
+
+Lemma bt_uint16_u16be em n l : n < 65536 -> bt_uintN em 2 (u16be n ++ l) = BOk n l.
+Proof.
+  intros H. unfold bt_uintN. change 2 with (lenN (u16be n)) at 1. rewrite bt_area_app_exact.
+  unfold u16be, be_value. cbn [fold_left]. f_equal. lia.
+Qed.
+
+Lemma bt_pstring16_enc em v l : lenN v < 65536 -> bt_pstringN em 2 (u16be (lenN v) ++ v ++ l) = BOk v l.
+Proof.
+  intros H. unfold bt_pstringN. rewrite bt_uint16_u16be by exact H.
+  destruct (lenN v =? 0) eqn:E.
+  - apply N.eqb_eq in E. apply lenN_0_nil in E. subst. reflexivity.
+  - apply bt_area_app_exact.
+Qed.
+
+(* the fixed part of a v2 header *)
+Lemma v2_parse_enc cmd fam proto payload rest :
+  cmd <= pp_cmdProxy -> fam <= pp_afUnix -> proto <= pp_tpDgram -> lenN payload < 65536 ->
+  v2_parse ([2 * 16 + cmd; fam * 16 + proto] ++ u16be (lenN payload) ++ payload ++ rest) = v2_finish cmd fam proto payload.
+Proof.
+  intros Hc Hf Hp Hl. unfold v2_parse, bt_uint8, bt_pstring16. cbn [app].
+  change pp_cmdProxy with 1 in *. change pp_afUnix with 3 in *. change pp_tpDgram with 2 in *.
+  rewrite bt_uint8_cons.
+  replace ((2 * 16 + cmd) / 16) with 2 by lia. replace ((2 * 16 + cmd) mod 16) with cmd by lia.
+  cbn [N.eqb Pos.eqb negb]. destruct (1 <? cmd) eqn:E1; [lia|].
+  rewrite bt_uint8_cons.
+  replace ((fam * 16 + proto) / 16) with fam by lia. replace ((fam * 16 + proto) mod 16) with proto by lia.
+  destruct (3 <? fam) eqn:E2; [lia|]. destruct (2 <? proto) eqn:E3; [lia|].
+  rewrite bt_pstring16_enc by exact Hl. reflexivity.
+Qed.
+
+Lemma enc_v2_shape cmd fam proto payload rest :
+  enc_v2 cmd fam proto payload ++ rest = pp_magic2 ++ ([2 * 16 + cmd; fam * 16 + proto] ++ u16be (lenN payload) ++ payload ++ rest).
+Proof. unfold enc_v2. repeat (rewrite <- app_assoc; cbn [app]). reflexivity. Qed.
+
+Lemma enc_v2_len cmd fam proto payload : lenN (enc_v2 cmd fam proto payload) = 16 + lenN payload.
+Proof. unfold enc_v2, u16be. repeat (rewrite lenN_app || cbn [lenN]). change (lenN pp_magic2) with 12. lia. Qed.
+
+(* TLV lists *)
+Lemma enc_tlvs_length tlvs : (length tlvs <= length (enc_tlvs tlvs))%nat.
+Proof.
+  induction tlvs as [|t ts IH]; cbn [enc_tlvs map concat length]; [lia|].
+  fold (enc_tlvs ts). unfold enc_tlv. cbn [app length]. rewrite app_length. lia.
+Qed.
+
+Lemma tlvs_loop_enc tlvs : forall fuel,
+  Forall (fun t => lenN (snd t) < 65536) tlvs -> (length tlvs <= fuel)%nat ->
+  tlvs_loop fuel (enc_tlvs tlvs) = TOk tlvs.
+Proof.
+  induction tlvs as [|[ty v] ts IH]; intros fuel Hwf Hf.
+  - destruct fuel; reflexivity.
+  - inversion Hwf as [|x xs Hv Hts]; subst. cbn [snd] in Hv.
+    cbn [enc_tlvs map concat]. fold (enc_tlvs ts). unfold enc_tlv. cbn [fst snd app].
+    destruct fuel as [|f]; [cbn [length] in Hf; lia|]. cbn [tlvs_loop bt_atEnd].
+    unfold bt_uint8, bt_pstring16. rewrite bt_uint8_cons. rewrite <- app_assoc.
+    rewrite bt_pstring16_enc by exact Hv.
+    rewrite IH; [reflexivity|exact Hts|cbn [length] in Hf; lia].
+Qed.
+
+Lemma parse_tlvs_enc tlvs :
+  Forall (fun t => lenN (snd t) < 65536) tlvs -> parse_tlvs (enc_tlvs tlvs) = TOk tlvs.
+Proof. intros H. unfold parse_tlvs. apply tlvs_loop_enc; [exact H|]. apply le_S, enc_tlvs_length. Qed.
+
+(* the TLV loop never runs out of fuel *)
+Lemma tlvs_loop_fuel : forall fuel d, (length d < fuel)%nat -> tlvs_loop fuel d <> TFuel.
+Proof.
+  induction fuel as [|f IH]; intros d H; [lia|].
+  cbn [tlvs_loop]. destruct (bt_atEnd d); [discriminate|].
+  destruct (bt_uint8 false d) as [ty r1| |] eqn:E1; try discriminate.
+  destruct (bt_pstring16 false r1) as [v r2| |] eqn:E2; try discriminate.
+  apply bt_uintN_len in E1. apply bt_pstringN_len in E2. rewrite !lenN_length in *.
+  specialize (IH r2). destruct (tlvs_loop f r2); try discriminate. apply IH. lia.
+Qed.
+
+Lemma parse_tlvs_fuel d : parse_tlvs d <> TFuel.
+Proof. apply tlvs_loop_fuel. lia. Qed.
+
+(* ================================================================== *)
+(* v2 round trips                                                      *)
+Lemma bt_uint16_u16be' em n l : n < 65536 -> bt_uint16 em (u16be n ++ l) = BOk n l.
+Proof. apply bt_uint16_u16be. Qed.
+
+Lemma v2_addresses_enc a more :
+  v2addr_wf a ->
+  v2_addresses (v2addr_family a) (enc_v2_addr a ++ more) =
+  Some (h_src (v2_expected 0 a []), h_sport (v2_expected 0 a []), h_dst (v2_expected 0 a []), h_dport (v2_expected 0 a []), more).
+Proof.
+  destruct a as [s d sp dp|s d sp dp|raw]; cbn [v2addr_wf v2addr_family enc_v2_addr v2_expected h_src h_sport h_dst h_dport].
+  - intros (Hs & Hd & Hsp & Hdp). unfold v2_addresses. change (pp_afInet =? pp_afInet) with true. cbv iota.
+    unfold bt_inet4. change pp_in4_size with 4. rewrite <- Hs at 1. rewrite <- !app_assoc. rewrite bt_area_app_exact.
+    rewrite <- Hd at 1. rewrite bt_area_app_exact.
+    rewrite bt_uint16_u16be' by exact Hsp. rewrite bt_uint16_u16be' by exact Hdp. reflexivity.
+  - intros (Hs & Hd & Hsp & Hdp). unfold v2_addresses. change (pp_afInet6 =? pp_afInet) with false.
+    change (pp_afInet6 =? pp_afInet6) with true. cbv iota.
+    unfold bt_inet6. change pp_in6_size with 16. rewrite <- Hs at 1. rewrite <- !app_assoc. rewrite bt_area_app_exact.
+    rewrite <- Hd at 1. rewrite bt_area_app_exact.
+    rewrite bt_uint16_u16be' by exact Hsp. rewrite bt_uint16_u16be' by exact Hdp. reflexivity.
+  - intros Hr. unfold v2_addresses. change (pp_afUnix =? pp_afInet) with false.
+    change (pp_afUnix =? pp_afInet6) with false. change (pp_afUnix =? pp_afUnix) with true. cbv iota.
+    unfold bt_skip. rewrite lenN_app, Hr. destruct (216 + lenN more <? 216) eqn:E; [lia|].
+    rewrite <- Hr. rewrite dropN_app_exact. reflexivity.
+Qed.
+
+Lemma v2addr_family_bounds a : v2addr_family a <= pp_afUnix /\ (v2addr_family a =? pp_afUnspecified) = false.
+Proof. destruct a; split; vm_compute; congruence. Qed.
+
+(* PROXY command: addresses, ports and every TLV come back; consumed = header length *)
+Theorem v2_proxy_roundtrip ipf a proto tlvs rest :
+  v2addr_wf a -> (proto = pp_tpStream \/ proto = pp_tpDgram) ->
+  Forall (fun t => lenN (snd t) < 65536) tlvs ->
+  lenN (enc_v2_addr a ++ enc_tlvs tlvs) < 65536 ->
+  pp_parse ipf (enc_v2 pp_cmdProxy (v2addr_family a) proto (enc_v2_addr a ++ enc_tlvs tlvs) ++ rest) =
+  Ok (v2_expected pp_cmdProxy a tlvs) (lenN (enc_v2 pp_cmdProxy (v2addr_family a) proto (enc_v2_addr a ++ enc_tlvs tlvs))).
+Proof.
+  intros Hwf Hp Htl Hlen. destruct (v2addr_family_bounds a) as [Hf1 Hf2].
+  rewrite enc_v2_shape, pp_parse_v2, enc_v2_len.
+  rewrite v2_parse_enc; [|vm_compute; congruence|exact Hf1|destruct Hp as [->| ->]; vm_compute; congruence|exact Hlen].
+  unfold v2_finish. rewrite Hf2.
+  replace (proto =? pp_tpUnspecified) with false by (destruct Hp as [->| ->]; reflexivity). cbn [orb].
+  rewrite (v2_addresses_enc a _ Hwf).
+  change (has_forwarded_addresses _) with true. cbv iota.
+  rewrite (parse_tlvs_enc tlvs Htl). cbn [add_size]. change (lenN pp_magic2) with 12.
+  f_equal; [destruct a; reflexivity|lia].
+Qed.
+
+(* LOCAL command: the address block is read, whatever follows it inside the header is discarded *)
+Theorem v2_local_roundtrip ipf a proto extra rest :
+  v2addr_wf a -> (proto = pp_tpStream \/ proto = pp_tpDgram) ->
+  lenN (enc_v2_addr a ++ extra) < 65536 ->
+  pp_parse ipf (enc_v2 pp_cmdLocal (v2addr_family a) proto (enc_v2_addr a ++ extra) ++ rest) =
+  Ok (v2_expected pp_cmdLocal a []) (lenN (enc_v2 pp_cmdLocal (v2addr_family a) proto (enc_v2_addr a ++ extra))).
+Proof.
+  intros Hwf Hp Hlen. destruct (v2addr_family_bounds a) as [Hf1 Hf2].
+  rewrite enc_v2_shape, pp_parse_v2, enc_v2_len.
+  rewrite v2_parse_enc; [|vm_compute; congruence|exact Hf1|destruct Hp as [->| ->]; vm_compute; congruence|exact Hlen].
+  unfold v2_finish. rewrite Hf2.
+  replace (proto =? pp_tpUnspecified) with false by (destruct Hp as [->| ->]; reflexivity). cbn [orb].
+  rewrite (v2_addresses_enc a _ Hwf).
+  change (has_forwarded_addresses _) with false. cbv iota.
+  cbn [add_size]. change (lenN pp_magic2) with 12.
+  f_equal; [destruct a; reflexivity|lia].
+Qed.
+
+(* unspecified family or protocol: the block is skipped as a whole and no address is reported *)
+Theorem v2_unspec_roundtrip ipf cmd fam proto payload rest :
+  cmd <= pp_cmdProxy -> fam <= pp_afUnix -> proto <= pp_tpDgram ->
+  (fam = pp_afUnspecified \/ proto = pp_tpUnspecified) -> lenN payload < 65536 ->
+  pp_parse ipf (enc_v2 cmd fam proto payload ++ rest) =
+  Ok {| h_v2 := true; h_cmd := cmd; h_ignore := true;
+        h_src := addr_empty; h_sport := 0; h_dst := addr_empty; h_dport := 0; h_tlvs := [] |}
+     (lenN (enc_v2 cmd fam proto payload)).
+Proof.
+  intros Hc Hf Hp Hu Hlen. rewrite enc_v2_shape, pp_parse_v2, enc_v2_len.
+  rewrite v2_parse_enc by assumption. unfold v2_finish.
+  replace ((proto =? pp_tpUnspecified) || (fam =? pp_afUnspecified)) with true
+    by (destruct Hu as [->| ->]; [rewrite orb_true_r|]; reflexivity).
+  cbn [add_size]. change (lenN pp_magic2) with 12. unfold header_ignore, header_new. cbn [h_v2 h_cmd h_ignore h_src h_sport h_dst h_dport h_tlvs]. f_equal. lia.
+Qed.
+
+(* ================================================================== *)
+(* v2 rejection list                                                   *)
+Theorem v2_bad_version_rejected ipf vc rest : vc / 16 <> 2 ->
+  pp_parse ipf (pp_magic2 ++ vc :: rest) = Reject (E2_version (vc / 16)).
+Proof.
+  intros H. rewrite pp_parse_v2. unfold v2_parse, bt_uint8. rewrite bt_uint8_cons.
+  destruct (vc / 16 =? 2) eqn:E; [lia|]. reflexivity.
+Qed.
+
+Theorem v2_bad_command_rejected ipf vc rest : vc / 16 = 2 -> pp_cmdProxy < vc mod 16 ->
+  pp_parse ipf (pp_magic2 ++ vc :: rest) = Reject (E2_command (vc mod 16)).
+Proof.
+  intros H1 H2. rewrite pp_parse_v2. unfold v2_parse, bt_uint8. rewrite bt_uint8_cons.
+  rewrite H1. cbn [N.eqb Pos.eqb negb]. destruct (pp_cmdProxy <? vc mod 16) eqn:E; [|lia]. reflexivity.
+Qed.
+
+Theorem v2_bad_family_rejected ipf vc fp rest : vc / 16 = 2 -> vc mod 16 <= pp_cmdProxy -> pp_afUnix < fp / 16 ->
+  pp_parse ipf (pp_magic2 ++ vc :: fp :: rest) = Reject (E2_family (fp / 16)).
+Proof.
+  intros H1 H2 H3. rewrite pp_parse_v2. unfold v2_parse, bt_uint8. rewrite !bt_uint8_cons.
+  rewrite H1. cbn [N.eqb Pos.eqb negb]. destruct (pp_cmdProxy <? vc mod 16) eqn:E; [lia|].
+  destruct (pp_afUnix <? fp / 16) eqn:E2; [|lia]. reflexivity.
+Qed.
+
+Theorem v2_bad_proto_rejected ipf vc fp rest :
+  vc / 16 = 2 -> vc mod 16 <= pp_cmdProxy -> fp / 16 <= pp_afUnix -> pp_tpDgram < fp mod 16 ->
+  pp_parse ipf (pp_magic2 ++ vc :: fp :: rest) = Reject (E2_proto (fp mod 16)).
+Proof.
+  intros H1 H2 H3 H4. rewrite pp_parse_v2. unfold v2_parse, bt_uint8. rewrite !bt_uint8_cons.
+  rewrite H1. cbn [N.eqb Pos.eqb negb]. destruct (pp_cmdProxy <? vc mod 16) eqn:E; [lia|].
+  destruct (pp_afUnix <? fp / 16) eqn:E2; [lia|]. destruct (pp_tpDgram <? fp mod 16) eqn:E3; [|lia]. reflexivity.
+Qed.
+
+(* the declared length is too small for the address block of the declared family *)
+Definition v2_block_size (fam : N) : N :=
+  if fam =? pp_afInet then 12 else if fam =? pp_afInet6 then 36 else 216.
+
+Lemma v2_addresses_short fam raw :
+  (fam = pp_afInet \/ fam = pp_afInet6 \/ fam = pp_afUnix) -> lenN raw < v2_block_size fam -> v2_addresses fam raw = None.
+Proof.
+  intros Hf Hl. unfold v2_addresses, v2_block_size in *.
+  assert (A : forall n d v r, bt_area false n d = BOk v r -> lenN d = n + lenN r) by (intros n d v r H; apply bt_area_len in H; lia).
+  destruct Hf as [->|[->| ->]].
+  - change (pp_afInet =? pp_afInet) with true in *. cbv iota in *.
+    unfold bt_inet4, bt_uint16. change pp_in4_size with 4.
+    destruct (bt_area false 4 raw) as [v1 r1| |] eqn:E1; try reflexivity.
+    destruct (bt_area false 4 r1) as [v2 r2| |] eqn:E2; try reflexivity.
+    destruct (bt_uintN false 2 r2) as [v3 r3| |] eqn:E3; try reflexivity.
+    destruct (bt_uintN false 2 r3) as [v4 r4| |] eqn:E4; try reflexivity.
+    apply A in E1. apply A in E2. apply bt_uintN_len in E3. apply bt_uintN_len in E4. lia.
+  - change (pp_afInet6 =? pp_afInet) with false in *. change (pp_afInet6 =? pp_afInet6) with true in *. cbv iota in *.
+    unfold bt_inet6, bt_uint16. change pp_in6_size with 16.
+    destruct (bt_area false 16 raw) as [v1 r1| |] eqn:E1; try reflexivity.
+    destruct (bt_area false 16 r1) as [v2 r2| |] eqn:E2; try reflexivity.
+    destruct (bt_uintN false 2 r2) as [v3 r3| |] eqn:E3; try reflexivity.
+    destruct (bt_uintN false 2 r3) as [v4 r4| |] eqn:E4; try reflexivity.
+    apply A in E1. apply A in E2. apply bt_uintN_len in E3. apply bt_uintN_len in E4. lia.
+  - change (pp_afUnix =? pp_afInet) with false in *. change (pp_afUnix =? pp_afInet6) with false in *.
+    change (pp_afUnix =? pp_afUnix) with true. cbv iota in *.
+    unfold bt_skip. destruct (lenN raw <? 216) eqn:E; [reflexivity|lia].
+Qed.
+
+Theorem v2_short_address_block_rejected ipf cmd fam proto payload rest :
+  cmd <= pp_cmdProxy -> (fam = pp_afInet \/ fam = pp_afInet6 \/ fam = pp_afUnix) ->
+  (proto = pp_tpStream \/ proto = pp_tpDgram) -> lenN payload < v2_block_size fam ->
+  pp_parse ipf (enc_v2 cmd fam proto payload ++ rest) = Reject E_must.
+Proof.
+  intros Hc Hf Hp Hl. rewrite enc_v2_shape, pp_parse_v2.
+  rewrite v2_parse_enc; [|exact Hc|destruct Hf as [->|[->| ->]]; vm_compute; congruence|destruct Hp as [->| ->]; vm_compute; congruence|].
+  2:{ unfold v2_block_size in Hl. destruct (fam =? pp_afInet); [lia|]. destruct (fam =? pp_afInet6); lia. }
+  unfold v2_finish.
+  replace (proto =? pp_tpUnspecified) with false by (destruct Hp as [->| ->]; reflexivity).
+  replace (fam =? pp_afUnspecified) with false by (destruct Hf as [->|[->| ->]]; reflexivity). cbn [orb].
+  rewrite (v2_addresses_short fam payload Hf Hl). reflexivity.
+Qed.
+
+(* ================================================================== *)
+(* neither magic                                                       *)
+Theorem invalid_magic_rejected ipf b :
+  starts_with b pp_magic1 = false -> starts_with b pp_magic2 = false -> lenN pp_magic2 <= lenN b ->
+  pp_parse ipf b = Reject E_magic.
+Proof.
+  intros H1 H2 Hl. unfold pp_parse, tok_skip. rewrite H2, H1.
+  destruct (lenN pp_magic2 <=? lenN b) eqn:E; [reflexivity|lia].
+Qed.
+
+(* ================================================================== *)
+(* the consumed size lies within the input that produced the header    *)
+Lemma v2_finish_size c f p raw h n : v2_finish c f p raw = Ok h n -> n = 1 + 1 + (2 + lenN raw).
+Proof.
+  unfold v2_finish. destruct ((p =? pp_tpUnspecified) || (f =? pp_afUnspecified)); [intros H; inversion H; subst; reflexivity|].
+  destruct (v2_addresses f raw) as [[[[[s sp] d] dp] lo]|]; [|discriminate].
+  destruct (has_forwarded_addresses _); [|intros H; inversion H; subst; reflexivity].
+  destruct (parse_tlvs lo); try discriminate. intros H; inversion H; subst; reflexivity.
+Qed.
+
+Lemma v2_ok_size d h n : v2_parse d = Ok h n -> n <= lenN d.
+Proof.
+  unfold v2_parse, bt_uint8, bt_pstring16.
+  destruct (bt_uintN true 1 d) as [vc r1| |] eqn:E1; try discriminate.
+  destruct (negb (vc / 16 =? 2)); [discriminate|].
+  destruct (pp_cmdProxy <? vc mod 16); [discriminate|].
+  destruct (bt_uintN true 1 r1) as [fp r2| |] eqn:E2; try discriminate.
+  destruct (pp_afUnix <? fp / 16); [discriminate|].
+  destruct (pp_tpDgram <? fp mod 16); [discriminate|].
+  destruct (bt_pstringN true 2 r2) as [raw r3| |] eqn:E3; try discriminate.
+  intros H. apply v2_finish_size in H. apply bt_uintN_len in E1. apply bt_uintN_len in E2. apply bt_pstringN_len in E3. lia.
+Qed.
+
+Lemma v1_isolate_size buf i m : v1_isolate buf = IsoOk i m -> m <= lenN buf.
+Proof.
+  unfold v1_isolate.
+  destruct (tok_prefix nonCR v1_maxInteriorLength buf) as [[t r1]|] eqn:P.
+  - apply tok_prefix_sound in P as (Hb & _). subst buf.
+    destruct r1 as [|c1 r1]; [cbn; discriminate|]. cbn [tok_skipChar]. destruct (c1 =? 13); [|cbn; discriminate].
+    destruct r1 as [|c2 r2]; [cbn; discriminate|]. cbn [tok_skipChar]. destruct (c2 =? 10); [|cbn; discriminate].
+    intros H; inversion H; subst. rewrite lenN_app. cbn [lenN]. lia.
+  - destruct (bt_atEnd buf); discriminate.
+Qed.
+
+Lemma v1_interior_size ipf i m h n : v1_interior ipf i m = Ok h n -> n = m.
+Proof.
+  unfold v1_interior. destruct (tok_skipChar 32 i) as [[|] t1]; [|discriminate].
+  destruct (tok_skip s_TCP t1) as [[|] t2].
+  - destruct (v1_addresses ipf t2) as [e|[[[s sp] d] dp]]; [discriminate|]. intros H; inversion H; subst; reflexivity.
+  - destruct (tok_skip s_UNKNOWN t1) as [[|] t3]; [|discriminate]. intros H; inversion H; subst; reflexivity.
+Qed.
+
+Lemma add_size_ok k o h n : add_size k o = Ok h n -> exists n', o = Ok h n' /\ n = k + n'.
+Proof. destruct o; cbn [add_size]; try discriminate. intros H; inversion H; subst. eexists; split; reflexivity. Qed.
+
+Theorem pp_ok_size_le ipf b h n : pp_parse ipf b = Ok h n -> n <= lenN b.
+Proof.
+  unfold pp_parse, tok_skip.
+  destruct (starts_with b pp_magic2) eqn:S2.
+  - rewrite magic2_nonempty. cbn [negb]. intros H. apply add_size_ok in H as (n' & H & ->).
+    apply v2_ok_size in H. rewrite lenN_dropN in H. apply starts_with_len in S2. lia.
+  - destruct (starts_with b pp_magic1) eqn:S1.
+    + rewrite magic1_nonempty. cbn [negb]. intros H. apply add_size_ok in H as (n' & H & ->).
+      unfold v1_parse in H. destruct (v1_isolate (dropN (lenN pp_magic1) b)) as [i m| |] eqn:I; try discriminate.
+      apply v1_interior_size in H. subst n'. apply v1_isolate_size in I. rewrite lenN_dropN in I.
+      apply starts_with_len in S1. lia.
+    + destruct (lenN pp_magic2 <=? lenN b); discriminate.
+Qed.
+
+(* the out-of-fuel artefact of the TLV loop is unreachable *)
+Theorem pp_never_out_of_fuel ipf b : pp_parse ipf b <> Reject E_fuel.
+Proof.
+  assert (A : forall k o, add_size k o = Reject E_fuel -> o = Reject E_fuel) by (intros k [h n| |e]; cbn; congruence).
+  unfold pp_parse, tok_skip. destruct (starts_with b pp_magic2).
+  - rewrite magic2_nonempty. cbn [negb]. intros H. apply A in H. revert H.
+    unfold v2_parse. destruct (bt_uint8 true _) as [vc r1| |]; try discriminate.
+    destruct (negb _); [discriminate|]. destruct (pp_cmdProxy <? _); [discriminate|].
+    destruct (bt_uint8 true r1) as [fp r2| |]; try discriminate.
+    destruct (pp_afUnix <? _); [discriminate|]. destruct (pp_tpDgram <? _); [discriminate|].
+    destruct (bt_pstring16 true r2) as [raw r3| |]; try discriminate.
+    unfold v2_finish. destruct (_ || _); [discriminate|].
+    destruct (v2_addresses _ raw) as [[[[[s sp] d] dp] lo]|]; [|discriminate].
+    destruct (has_forwarded_addresses _); [|discriminate].
+    pose proof (parse_tlvs_fuel lo). destruct (parse_tlvs lo); try discriminate. congruence.
+  - destruct (starts_with b pp_magic1).
+    + rewrite magic1_nonempty. cbn [negb]. intros H. apply A in H. revert H.
+      unfold v1_parse. destruct (v1_isolate _) as [i m| |]; try discriminate.
+      unfold v1_interior. destruct (tok_skipChar 32 i) as [[|] t1]; [|discriminate].
+      destruct (tok_skip s_TCP t1) as [[|] t2].
+      * destruct (v1_addresses ipf t2) as [e|[[[s sp] d] dp]] eqn:V; [|discriminate].
+        intros Q0; inversion Q0; subst e. clear Q0. revert V. unfold v1_addresses.
+        destruct (tok_prefix famChars 1 t2) as [[fam r1]|]; [|discriminate].
+        destruct (tok_skipChar 32 r1) as [[|] r2]; [|discriminate].
+        assert (IPX : forall t e, v1_extract_ip ipf t = inl e -> e <> E_fuel).
+        { intros t e. unfold v1_extract_ip. destruct (tok_prefix ipChars npos t) as [[ip q]|]; [|intros Q; inversion Q; discriminate].
+          destruct (tok_skipChar 32 q) as [[|] q2]; [|intros Q; inversion Q; discriminate].
+          destruct (ipf ip); intros Q; inversion Q; discriminate. }
+        assert (PX : forall ts t e, v1_extract_port ts t = inl e -> e <> E_fuel).
+        { intros ts t e. unfold v1_extract_port. destruct (tok_int64 10 false npos t) as [[port k]|]; [|intros Q; inversion Q; discriminate].
+          destruct (if ts then _ else _) as [[|] q2]; [|intros Q; inversion Q; discriminate].
+          destruct (port >? 65535)%Z; intros Q; inversion Q; discriminate. }
+        destruct (v1_extract_ip ipf r2) as [e|[src r3]] eqn:X1; [intros Q; inversion Q; subst; exact (IPX _ _ X1 eq_refl)|].
+        destruct (v1_extract_ip ipf r3) as [e|[dst r4]] eqn:X2; [intros Q; inversion Q; subst; exact (IPX _ _ X2 eq_refl)|].
+        destruct (negb _); [discriminate|].
+        destruct (v1_extract_port true r4) as [e|[sp r5]] eqn:X3; [intros Q; inversion Q; subst; exact (PX _ _ _ X3 eq_refl)|].
+        destruct (v1_extract_port false r5) as [e|[dp r6]] eqn:X4; [intros Q; inversion Q; subst; exact (PX _ _ _ X4 eq_refl)|].
+        discriminate.
+      * destruct (tok_skip s_UNKNOWN t1) as [[|] t3]; discriminate.
+    + destruct (lenN pp_magic2 <=? lenN b); discriminate.
 Qed.
